@@ -242,7 +242,10 @@ def batch_relation_disagrees(f):
             break
     if found:
         return True, found[:1]
-    return tampered_accepted_offsetting(f)
+    ok, det = tampered_accepted_offsetting(f)
+    if ok:
+        return ok, det
+    return weights_predictable(f)
 
 
 def probe_unchanged(f):
@@ -561,6 +564,22 @@ def nonce_shared_across_runs(f):
         if same:
             bad.append(same)
     return (len(bad) == 2), bad[:1]
+
+
+def nonce_shared_generators(f):
+    """C14: with a stuck external RNG, three statements that differ ONLY in blinding generator 1 (same commitment: that blinding component is zero) draw the
+    same alpha: the blinding parts of A are collinear, A_2 - A_0 == 2 (A_1 - A_0) — computed on the real crates"""
+    c = f.detail.get('replay_cfg') or f.cfg
+    n, x = c['n'], max(c.get('x', 2), 2)
+    m0 = c['members'][0]
+    for rng in ('const', 'zero'):
+        mem = lambda i: {'m': m0.get('m', 1), 'cap': m0.get('cap', m0.get('m', 1)), 'rng': rng, 'zero_blinding_components': list(range(1, x)), 'g1_shift': i, 'name_idx': 0}
+        o = run_replay({'scenario': 'batch', 'n': n, 'x': x, 'members': [mem(0), mem(1), mem(2)], 'attacks': True}, 1)
+        if 'crash' in o:
+            return None, o
+        if o.get('generator_linearity') is True:
+            return True, {'external_rng': rng, 'statements differing only in blinding generator 1 share alpha': True, 'n': n, 'x': x}
+    return nonce_shared_across_runs(f)
 
 
 def wire_vector_mismatch(f):
